@@ -61,6 +61,11 @@ class BackedgeSig(Exception):
     """End of one iteration of a loop analysed in single-iteration mode."""
 
 
+class CaptureSig(BaseException):
+    """Raised when the call that an analysis waits for is reached (the environment of a nested function is taken from the
+    real prologue of its enclosing function); `finally` blocks of the analysed code are not run while it unwinds."""
+
+
 class CutoffSig(Exception):
     def __init__(self, reason):
         self.reason = reason
@@ -216,8 +221,9 @@ class _Coroutine:
             self.finished = True
             self.back.release()
 
-    def resume(self):
+    def resume(self, sent=None):
         import threading
+        self.sent = sent if sent is not None else NONE   # what the suspended `yield` expression evaluates to
         if self.finished:
             return ("return", None)
         if self.thread is None:
@@ -239,6 +245,7 @@ class _Coroutine:
         self.go.acquire()
         if self.kill:
             raise _Kill()
+        return self.sent
 
     def close(self):
         if self.thread is not None and not self.finished:
@@ -447,6 +454,9 @@ class Interp:
         fi = self.index.func(qualname)
         if fi.parent_func is None:
             return Fn(qualname, None)
+        if closure_vars and isinstance(closure_vars.get("@env"), Env):
+            # the environment was taken from the enclosing function's own prologue (appmodel.closure_env)
+            return Fn(qualname, closure_vars["@env"])
         # nested: build an env holding the given free variables and the sibling closures
         env = Env(fi.module, self.module_env(run, fi.module), dict(closure_vars or {}), func=fi.parent_func)
         pf = self.index.func(fi.parent_func)
@@ -836,6 +846,18 @@ class Interp:
                 items = list(v.items)
             elif isinstance(v, Ref) and isinstance(run.cell(v), HList):
                 items = list(run.cell(v).items)
+            elif run.kind_of(v) in ("strlist", "byteslist"):
+                # the pieces of a split: their number is decided from the facts on the length (forked while it is open, up to 4)
+                ek = "str" if run.kind_of(v) == "strlist" else "bytes"
+                ln = App("len", (v,), "int")
+                n = None
+                for cand in range(0, 5):
+                    if self.tf.decide_cmp(self, run, "==", ln, C(cand), t):
+                        n = cand
+                        break
+                if n is None:
+                    raise Unsupported(f"starred unpacking of a split with more than 4 pieces at {self.locof(t)}")
+                items = [App("index", (v, C(i)), ek) for i in range(n)]
             else:
                 raise Unsupported(f"starred unpacking of a symbolic iterable at {self.locof(t)}")
             si = next(i for i, e in enumerate(t.elts) if isinstance(e, ast.Starred))
@@ -917,7 +939,7 @@ class Interp:
     def st_For(self, run, st, env):
         itv = self.eval(run, st.iter, env)
         from . import hof
-        if (hof.is_hof(itv, "itertools.repeat") and len(hof.parts(itv)[1]) == 1) or hof.is_hof(itv, "iter-call"):
+        if (hof.is_hof(itv, "itertools.repeat") and len(hof.parts(itv)[1]) == 1) or hof.is_hof(itv, "iter-call") or hof.is_hof(itv, "takewhile-repeat"):
             return self._for_unbounded(run, st, env, itv)
         items = self.iterate(run, itv, st)
         broke = False
@@ -950,6 +972,11 @@ class Interp:
                 fn, sentinel = hof.parts(itv)[1]
                 v = self.call(run, fn, [], {}, st)
                 if self.tf.identical(self, run, v, sentinel, st):
+                    self.exec_block(run, st.orelse, env)
+                    return
+            elif hof.is_hof(itv, "takewhile-repeat"):
+                pred, v = hof.parts(itv)[1]
+                if not self.truth(run, self.call(run, pred, [v], {}, st), st):
                     self.exec_block(run, st.orelse, env)
                     return
             else:
@@ -1030,6 +1057,19 @@ class Interp:
                 if self.truth(run, x, node):
                     yield x
             return
+        if isinstance(itv, (Sym, App)) and run.kind_of(itv) in ("bytes", "str"):
+            # a string whose length is pinned down on this path: its elements, one by one (data[:2] of a close body, a 4-byte key)
+            n = self.tf._b_len(self, run, [itv], {}, node)
+            if isinstance(n, C) and isinstance(n.v, int) and 0 <= n.v <= 64:
+                if isinstance(itv, App) and itv.op == "slice" and itv.args[3] == NONE and isinstance(self.resolve(run, itv.args[1]), C):
+                    lo = self.resolve(run, itv.args[1]).v or 0
+                    if lo >= 0:
+                        for i in range(n.v):
+                            yield self.resolve(run, self.subscript(run, itv.args[0], C(lo + i), node))
+                        return
+                for i in range(n.v):
+                    yield self.resolve(run, self.subscript(run, itv, C(i), node))
+                return
         yield from self._sym_iter(run, itv, node)
 
     def _sym_iter(self, run, itv, node):
@@ -1123,9 +1163,13 @@ class Interp:
         return target is not None and cn is not None and bool(self.is_subclass(run, cn, target))
 
     def st_Try(self, run, st, env):
+        skip_final = False
         try:
             try:
                 self.exec_block(run, st.body, env)
+            except CaptureSig:
+                skip_final = True
+                raise
             except RaiseSig as r:
                 handled = False
                 for h in st.handlers:
@@ -1149,7 +1193,7 @@ class Interp:
             else:
                 self.exec_block(run, st.orelse, env)
         finally:
-            if st.finalbody:
+            if st.finalbody and not skip_final:
                 # a finally that itself ends abnormally replaces the pending signal (Python semantics)
                 self.exec_block(run, st.finalbody, env)
 
@@ -1646,7 +1690,7 @@ class Interp:
         finally:
             run.stack.pop()
 
-    def generator_next(self, run, g: Ref, node, default=None):
+    def generator_next(self, run, g: Ref, node, default=None, sent=None):
         """next(g): resume the generator's body until its next yield.  An exception that leaves the body, or its end,
         finishes the generator for good (Python semantics)."""
         c = run.cell(g)
@@ -1655,7 +1699,7 @@ class Interp:
             if default is not None:
                 return default
             self.raise_builtin(run, "StopIteration", node)
-        kind, payload = co.resume()
+        kind, payload = co.resume(sent)
         if kind == "yield":
             return payload
         c.fields["@dead"] = TRUE
@@ -1679,8 +1723,7 @@ class Interp:
         co = _Coroutine.current()
         if co is None:
             raise Unsupported(f"yield outside an analysed generator at {self.locof(node)}")
-        co.suspend(self.eval(run, node.value, env) if node.value is not None else NONE)
-        return NONE
+        return co.suspend(self.eval(run, node.value, env) if node.value is not None else NONE)
 
     def ex_YieldFrom(self, run, node, env):
         co = _Coroutine.current()
